@@ -864,21 +864,32 @@ theorem Inv2.resume (fl : Flags) (hfl : fl.readyGuarded = true) {s : St} (h : In
     | some d =>
       simp only
       intro _
-      have hd : d < (s1.jobs j).deps.length := by
-        have := b1 d rfl; rw [(t1 j).len]; omega
-      obtain ⟨-, k2⟩ := h1.toInv.check fl hfl j d hact1 hd
-      obtain ⟨h2, t2⟩ := Inv2.check fl hfl h1.toCore j d (h1.gp.mono (fun _ hm => List.mem_cons_of_mem _ hm)) h1.gw hact1 hd
-      have hpc2 : ((s1.check fl j d).jobs j).pc = .lockEnter := (k2 j).pc.trans hpc1
-      have hact2 : act ((s1.check fl j d).jobs j) := (k2 j).act hact1
-      have hnd : ((s1.check fl j d).jobs j).state ≠ .done := by
+      -- `abortReleases`: the locks already taken are given back before the check (both flag values)
+      have hrel : Inv2 (if fl.abortReleases = true then s1.releaseAll j (s1.jobs j).held else s1) ∧
+          FTr s1.jobs (if fl.abortReleases = true then s1.releaseAll j (s1.jobs j).held else s1).jobs ∧
+          JKTr s1.jobs (if fl.abortReleases = true then s1.releaseAll j (s1.jobs j).held else s1).jobs := by
+        split
+        · exact ⟨(h1.releaseAll j _ s1).1, (h1.releaseAll j _ s1).2, (h1.toInv.releaseAll j _ s1).2⟩
+        · exact ⟨h1, FTr.refl _, JKTr.refl _⟩
+      obtain ⟨h1', t1', k1'⟩ := hrel
+      generalize (if fl.abortReleases = true then s1.releaseAll j (s1.jobs j).held else s1) = s1' at h1' t1' k1' ⊢
+      have hpc1' : (s1'.jobs j).pc = .lockEnter := (k1' j).pc.trans hpc1
+      have hact1' : act (s1'.jobs j) := (k1' j).act hact1
+      have hd : d < (s1'.jobs j).deps.length := by
+        have := b1 d rfl; rw [(t1' j).len, (t1 j).len]; omega
+      obtain ⟨-, k2⟩ := h1'.toInv.check fl hfl j d hact1' hd
+      obtain ⟨h2, t2⟩ := Inv2.check fl hfl h1'.toCore j d (h1'.gp.mono (fun _ hm => List.mem_cons_of_mem _ hm)) h1'.gw hact1' hd
+      have hpc2 : ((s1'.check fl j d).jobs j).pc = .lockEnter := (k2 j).pc.trans hpc1'
+      have hact2 : act ((s1'.check fl j d).jobs j) := (k2 j).act hact1'
+      have hnd : ((s1'.check fl j d).jobs j).state ≠ .done := by
         intro e; have := ((h2.toInv.loc j).done_pc e).1; exact this hpc2
-      have hne : ((s1.check fl j d).jobs j).state ≠ .error := by
+      have hne : ((s1'.check fl j d).jobs j).state ≠ .error := by
         intro e; exact (h2.core.g.floc j).f2 e (Or.inl hpc2)
-      obtain ⟨h3, t3⟩ := h2.putPc j { ((s1.check fl j d).jobs j) with pc := .lockExitAbort } [(.lockExit, j)] hact2
+      obtain ⟨h3, t3⟩ := h2.putPc j { ((s1'.check fl j d).jobs j) with pc := .lockExitAbort } [(.lockExit, j)] hact2
         rfl rfl rfl rfl rfl rfl rfl rfl (by simp) (by simp) (by simp) hne hnd
         (fun _ => Or.inl (Or.inl hpc2)) (by simp) (by simp [pcFinal, pcFin])
         (h2.core.g.gR j (by rw [hpc2]; simp [started]))
-      exact ⟨h3, (t1.trans t2).trans t3⟩
+      exact ⟨h3, ((t1.trans t1').trans t2).trans t3⟩
     | none =>
       simp only
       intro hI
@@ -1618,7 +1629,13 @@ theorem QFrame.resume (fl : Flags) (s : St) (j : Nat) : QFrame s (s.resume fl j)
     rcases hacq : s.acquireAll j (s.jobs j).deps.length 0 with ⟨s1, r⟩
     rw [hacq] at h1
     cases r with
-    | some d => exact (h1.trans (QFrame.check fl s1 j d)).trans (QFrame.put _ j _ [] _ (by simp))
+    | some d =>
+      simp only
+      have hrel : QFrame s1 (if fl.abortReleases = true then s1.releaseAll j (s1.jobs j).held else s1) := by
+        split
+        · exact QFrame.releaseAll j _ s1
+        · exact QFrame.refl s1
+      exact ((h1.trans hrel).trans (QFrame.check fl _ j d)).trans (QFrame.put _ j _ [] _ (by simp))
     | none => exact h1.trans (QFrame.put _ j _ [] _ (by simp))
   · refine ((QFrame.releaseAll j _ s).trans (QFrame.put _ j _ _ [] ?_)).trans (QFrame.loopHead _ j)
     intro j' h; split at h <;> simp at h
